@@ -7,16 +7,18 @@ import zlib
 import numpy as np
 
 from sim import filgen
-from sim.core import open_reader, Rejected, SimLivelock, Violation
+from sim.core import nint, open_reader, Rejected, SimLivelock, Violation
 from sim.disk import SimDisk
 
 from .c02 import after_list_removal  # noqa: F401
 from .c07 import blocks_of, compare_output
 
 ID = "C16"
+VARY_ARGFORM = True  # integer call arguments also arrive as numpy integer scalars
 GUARD_KERNELS = True
 SHRINK_LISTS = ("ops", "faults", "ranges", ("files", "nsamps"))
 SHRINK_MIN = {"nchans": 2, "nbits": 1, "gulp": 1}
+SHRINK_SIMPLE = {"argform": "int"}
 FCH1, FOFF = 1500.0, -0.5
 BANDS = [(1500.0, -0.5), (1581.804688, -0.390625), (1400.1, 0.3)]  # float32-exact and not
 
@@ -94,7 +96,7 @@ def generate(rng, tier) -> dict:
     counts = [rng.randint(4, mx // nfiles) for _ in range(nfiles)]
     N = sum(counts)
     band = rng.choice(BANDS)
-    spec = {"nbits": nbits, "nchans": nchans, "nsamps": counts, "pad": [0] * nfiles, "vseed": rng.randrange(1 << 16),
+    spec = {"nbits": nbits, "nchans": nchans, "nsamps": counts, "pad": filgen.gen_pads(rng, nfiles, 0), "vseed": rng.randrange(1 << 16),
             "mode": "small", "fch1": band[0], "foff": band[1]}
     r = rng.random()
     if r < 0.4:
@@ -137,7 +139,7 @@ def fixup(sc):
     f["nsamps"] = [n for n in f["nsamps"] if n >= 1][:2]
     if not f["nsamps"] or not sc["ops"]:
         return None
-    f["pad"] = [0] * len(f["nsamps"])
+    f["pad"] = (list(f.get("pad") or []) + [0, 0, 0])[: len(f["nsamps"])]
     N = sum(f["nsamps"])
     sc["start"] = max(0, min(sc["start"], N - 1))
     if sc["nsamps"] is not None:
@@ -338,10 +340,15 @@ def exec_clean(sc, ctx) -> None:
                     "method": sc["method"], "threshold": thr, "ranges": sc["ranges"], "fn": sc["fn"], "mask_value": sc["mask_value"], "op_index": i}
             raised = None
             out = rm = None
+            if (sc["files"]["vseed"] + i) % 3 == 0:
+                # left by an earlier run: a LONGER file of arbitrary bytes under the output name
+                with open(os.path.join(ctx.root, f"clean{i}.fil"), "wb") as fp:
+                    fp.write(bytes((j * 37 + 11) & 0xFF for j in range(2048 + N * sc["files"]["nchans"] * 4)))
+                ctx.probe("output-name-held-a-longer-file")
             try:
                 out, rm = reader.clean_rfi(method=sc["method"], threshold=thr, freq_mask=[tuple(r) for r in sc["ranges"]] or None,
                                            custom_funcn=custom_fn(sc["fn"]) if sc["fn"] else None, mask_value=sc["mask_value"],
-                                           outfile_name=os.path.join(ctx.root, f"clean{i}.fil"), gulp=gulp, start=start, nsamps=nsamps, quiet=True)
+                                           outfile_name=os.path.join(ctx.root, f"clean{i}.fil"), gulp=nint(gulp), start=nint(start), nsamps=nint(nsamps), quiet=True)
             except SimLivelock as e:
                 raise Violation("C16/clean_rfi/livelock", str(e), info) from None
             except Violation:
